@@ -451,6 +451,8 @@ class DznJsonAst:
 
     def process(self) -> FileContents:
         """"Start processing the preloaded Dezyne JSON AST and return the FileContents."""
+        self._ns_trail = NamespaceTree()
+        self._file_contents = FileContents()
         root = parse_root(self.ast)
         for element in root.elements:
             self.parse_element(element, self._ns_trail)
